@@ -111,4 +111,24 @@ CHECKS = {
              "outside": "the live connection manager and peer handshake; ban call sites in query.go/blockmanager.go are decided in C03/C06"},
         ],
     },
+    "C10": {
+        "assumptions": COMMON_ASSUMPTIONS + [
+            "UtxoScannerConfig callbacks (BestSnapshot, GetBlockHash, BlockFilterMatches, GetBlock) are harness stubs over a 4-5 block chain; the filter stub matches exactly the blocks that create or spend a watched script (no false negatives, no false positives)",
+            "requests arrive before Start or at chain-callback boundaries of the running scan (the scanner goroutine runs under the engine's run-to-block scheduler); Stop is called from a second goroutine at a chosen callback boundary",
+            "one funding transaction with two outputs, at most one spend per outpoint; out-of-range output index 2",
+        ],
+        "groups": [
+            {"name": "scan", "pkg": ".", "harness_dir": "root", "common": ["walletdb"], "harness": "VerifH_C10_scan",
+             "inits": ROOT_INITS, "anchored_files": ["utxoscanner.go", "batch_spend_reporter.go"],
+             "params": {"requests": 2, "arrivals": 1, "maxspends": 1},
+             "thorough": {"params": {"requests": 2, "arrivals": 2, "maxspends": 2, "inputpos": 1}},
+             "must_reach": {"VerifH_C10_scan": ["expect-spend", "expect-unspent-output", "expect-empty", "arrived-after-scan"]},
+             "outside": "more than 2 requests / 2 spends, chains longer than 5 blocks, arrival of a request between two instructions of the scanner goroutine (only call boundaries)"},
+            {"name": "stop", "pkg": ".", "harness_dir": "root", "common": ["walletdb"], "harness": "VerifH_C10_scan", "thorough_only": True,
+             "inits": ROOT_INITS, "anchored_files": ["utxoscanner.go", "batch_spend_reporter.go"],
+             "params": {"requests": 1, "arrivals": 1, "maxspends": 1, "withStop": 1, "stopPoints": 4},
+             "must_reach": {"VerifH_C10_scan": ["stopped", "shutdown-error"]},
+             "outside": "Stop racing with Enqueue at sub-call granularity"},
+        ],
+    },
 }
